@@ -1001,6 +1001,55 @@ func genParse0(r *rng, tier string) interface{} {
 	return parseIn{Tree: t, Words: genLine(r, t), HiddenEnv: r.chance(10)}
 }
 
+// ---- op "cobrafind": which command cobra's own `Find` dispatches a line to, and the words it hands on (C01 / C07:
+// the specification Spec/Cobra.lean is compared with this)
+func runCobraFind(raw json.RawMessage) interface{} {
+	var in parseIn
+	must(json.Unmarshal(raw, &in))
+	if len(in.Tree.Cmds) == 0 {
+		return map[string]interface{}{"cmd": -1, "rest": []string{}}
+	}
+	rec := runRecord{}
+	cmds := buildTree(in.Tree, &rec)
+	var found *cobra.Command
+	var rest []string
+	perr := ""
+	func() {
+		defer func() {
+			if p := recover(); p != nil {
+				perr = fmt.Sprint(p)
+			}
+		}()
+		found, rest, _ = cmds[0].Find(append([]string{}, in.Words...))
+	}()
+	idx := -1
+	for i, c := range cmds {
+		if c == found {
+			idx = i
+		}
+	}
+	if rest == nil {
+		rest = []string{}
+	}
+	return map[string]interface{}{"cmd": idx, "rest": rest, "panic": perr}
+}
+
+func genCobraFind(r *rng, tier string) interface{} {
+	in := genParse0(r, tier)
+	if pi, ok := in.(parseIn); ok && r.chance(30) && len(pi.Words) > 0 {
+		// the whole line as typed (the last word may be empty: cobra then sees an empty argument)
+		return pi
+	} else if ok && len(pi.Words) > 0 {
+		pi.Words = pi.Words[:len(pi.Words)-1]
+		return pi
+	}
+	return in
+}
+
+func init() {
+	ops["cobrafind"] = &opDef{gen: genCobraFind, run: runCobraFind}
+}
+
 func init() {
 	ops["parse"] = &opDef{gen: genParse, run: runParse}
 }
